@@ -308,6 +308,48 @@ def r6_decoder_siblings(ctx, P):
     ctx.floor(R, "decoder sibling pairs", n, 2)
 
 
+def r7_split_off_checks_both_ends(ctx, P):
+    R = "C09.R7"
+    ctx.rule(R, "string split_off: on every returning path each end of the range was either checked by assert_char_boundary or "
+                "is known to be 0 / len (always boundaries) - also for an empty range, like String::drain(k..k)")
+    n = 0
+    for b in P.fn_bodies():
+        if b.item["name"] != "split_off":
+            continue
+        impl = P.impl_of_item.get(b.item["id"])
+        if not impl or not (impl["self_ty"].startswith("fixed_bump_string::FixedBumpString") or impl["self_ty"].endswith(", str>")):
+            continue
+        acb = b.calls_to(lambda f: f.get("name") == "assert_char_boundary")
+        if not ctx.need(bool(acb), R, f"assert_char_boundary calls in {b.path}"):
+            continue
+
+        def is_idx(e, which):
+            e = strip_casts(e)
+            return e[0] == "field" and e[2] == which and expr_mentions(e, lambda x: x[0] == "call" and x[1].split("::")[-1] == "range")
+        for which in ("start", "end"):
+            n += 1
+            blocks = [s_.bb for s_, t in acb if is_idx(b.prov_operand(t["args"][1], s_), which)]
+
+            def trivially_boundary(e, which=which):
+                if e[0] == "bin" and e[1] == "Eq":
+                    for x, y in ((e[2], e[3]), (e[3], e[2])):
+                        if is_idx(x, which):
+                            y = strip_casts(y)
+                            if which == "start" and y[0] == "int" and y[1] == 0:
+                                return True
+                            if which == "end" and y[0] == "call" and y[1].split("::")[-1] == "len":
+                                return True
+                return None
+            te, fe = b.cond_edges(trivially_boundary)
+            reached = b.reach([0], removed_blocks=blocks, removed_edges=te, cleanup=False)
+            ok = bool(blocks) and RET not in reached
+            ctx.inst(R, b.path, ok, f"`{which}` is boundary-checked (or 0/len) on every returning path" if ok else
+                     f"a path returns without checking that `{which}` lies on a character boundary (for instance the empty-range "
+                     "shortcut): split_off(k..k) with k inside a character returns instead of panicking like String::drain(k..k)",
+                     where=b.where(), site=f"{which} checked on all paths")
+    ctx.floor(R, "range ends of string split_off implementations", n, 4)
+
+
 from . import stale
 
 
@@ -320,5 +362,6 @@ def run(ctx, progs):
         r3_guards(ctx, P)
         r4_cstr(ctx, P)
         r6_decoder_siblings(ctx, P)
+        r7_split_off_checks_both_ends(ctx, P)
         stale.rule(ctx, P, "C09.R5", ("bump_string::BumpString<", "mut_bump_string::MutBumpString<"), 6, 8)
     ctx.config = None
